@@ -57,7 +57,43 @@ def run(repo: Repo, chk: Check) -> None:
 
 
 # ------------------------------------------------------------------------- O1
+def position_state(repo: Repo, chk: Check) -> None:
+    """Anything an ASN1Reader remembers about its position besides the view itself (a cached header, an offset ...)
+    must be reset by every method that moves the view; peek_header answers for the *current* position."""
+    from sa.pathsum import Summary
+
+    cls = repo.cls("_asn1.ASN1Reader")
+    sums = {name: Summary(m) for name, m in cls.methods.items() if not name.startswith("__") or name == "__init__"}
+    derived: t.Set[str] = set()
+    for name, sm in sums.items():
+        for ps in sm.paths:
+            for e in ps.stores():
+                tg = ps.text(e.target)
+                if tg.startswith("self.") and tg != "self._view" and tg.count(".") == 1 and "self._view" in ps.text(e.tree):
+                    derived.add(tg)
+    pk = cls.methods.get("peek_header")
+    if pk is None:
+        raise AnalysisError("ASN1Reader.peek_header vanished")
+    for ps in sums["peek_header"].returning():
+        v = ps.value
+        fresh = isinstance(v, ast.Call) and ps.text(v.func) == "_read_asn1_header" and [ps.text(a) for a in v.args] == ["self._view"] and any(ps.key(c.tree) == ps.key(v) for c in ps.calls("_read_asn1_header"))
+        cached = ps.text(v) in derived
+        chk.ob("O1", Site.of(pk, ps.exit_node), fresh or cached, "peek_header decodes the header at the current position" if fresh else ("peek_header answers from position state (reset discipline checked below)" if cached else f"peek_header returns {ps.text(v)[:60]}, which is not the header decoded at the current position"))
+    for name, sm in sums.items():
+        if name == "__init__":
+            continue
+        m = cls.methods[name]
+        for ps in sm.paths:
+            if ps.exit != "return":
+                continue
+            st = {ps.text(e.target) for e in ps.stores()}
+            if "self._view" in st:
+                stale = sorted(d for d in derived if d not in st)
+                chk.ob("O1", Site.of(m, ps.exit_node, f"{name}: position state"), not stale, "moves the view and nothing else describes the position" if not derived else ("moves the view and resets " + ", ".join(sorted(derived))) if not stale else f"{name} moves self._view but leaves {', '.join(stale)} (computed from an earlier view) in place: the next peek_header / read answers for a position the reader has left")
+
+
 def consumption(repo: Repo, chk: Check) -> None:
+    position_state(repo, chk)
     cls = repo.cls("_asn1.ASN1Reader")
     n = 0
     for mname, (helper, _tag, _c) in READERS.items():
@@ -328,57 +364,78 @@ def header_writer(repo: Repo, chk: Check) -> None:
     rows = 0
     seen = set()
     for p in paths:
-        facts: t.Dict[str, bool] = {}
-        thresholds = {}
+        facts: t.Dict[str, t.Any] = {}
+        tag_thr = None
+        lo_len, hi_len = 0, None  # interval of len(content) on this path, from every comparison with a constant
         for c, pol in _implied(p.conds):
             cmp_ = c.info.get("cmp")
             if cmp_ and cmp_[1] == num and cmp_[2].is_const():
-                facts["low"] = pol if cmp_[0] == "lt" else (not pol if cmp_[0] == "ge" else None)  # type: ignore[assignment]
-                thresholds["tag"] = (cmp_[0], cmp_[2].const)
-            elif cmp_ and cmp_[1] == dlen and cmp_[2].is_const():
-                facts["short"] = pol if cmp_[0] == "lt" else (not pol if cmp_[0] == "ge" else None)  # type: ignore[assignment]
-                thresholds["len"] = (cmp_[0], cmp_[2].const)
+                facts["low"] = pol if cmp_[0] == "lt" else (not pol if cmp_[0] == "ge" else None)
+                tag_thr = (cmp_[0], cmp_[2].const)
+            elif cmp_ and cmp_[2].is_const() and cmp_[1] == dlen:
+                k = cmp_[2].const
+                op = cmp_[0] if pol else {"lt": "ge", "ge": "lt", "le": "gt", "gt": "le", "eq": "ne", "ne": "eq"}[cmp_[0]]
+                if op == "lt":
+                    hi_len = k - 1 if hi_len is None else min(hi_len, k - 1)
+                elif op == "le":
+                    hi_len = k if hi_len is None else min(hi_len, k)
+                elif op == "ge":
+                    lo_len = max(lo_len, k)
+                elif op == "gt":
+                    lo_len = max(lo_len, k + 1)
+                elif op == "eq":
+                    lo_len, hi_len = max(lo_len, k), (k if hi_len is None else min(hi_len, k))
+                facts["len"] = True
             elif c.info.get("nonzero") == Lin.atom(("field", p1)) or c.info.get("truthy") == p1 or c.desc.startswith(p1):
                 facts["constructed"] = pol
-        if "low" not in facts or "short" not in facts or "constructed" not in facts:
+        if "low" not in facts or "len" not in facts or "constructed" not in facts:
             continue  # paths of the argument validation (they raise or are duplicates)
-        key = (facts["constructed"], facts["low"], facts["short"])
+        segs = list(p.segs)
+        i = 1 if facts["low"] else 2
+        lenc = segs[i:-1]  # the length octets: everything between the identifier octets and the content
+        shape: t.Any = "?"
+        if len(lenc) == 1 and lenc[0].kind == "int" and lenc[0].width == 1 and lenc[0].value == dlen:
+            shape = "short"
+        elif len(lenc) == 2:
+            pre, body = lenc
+            pv = pre.value if pre.kind == "int" else (Lin(int.from_bytes(pre.value, "big")) if pre.kind == "lit" and isinstance(pre.value, bytes) and len(pre.value) == 1 else None)
+            if isinstance(pv, Lin) and pv.is_const() and body.kind == "int" and body.width.is_const() and body.value == dlen and getattr(body, "order", "big") == "big" and pv.const == (0x80 | body.width.const):
+                shape = ("fixed", body.width.const)
+            elif pre.kind == "int" and pre.width == 1 and _or_set(pre.value) == {repr(body.width), "128"} and body.kind in ("reversed", "repeat", "raw", "int"):
+                shape = "minimal"
+        key = (facts["constructed"], facts["low"], shape, lo_len, hi_len)
         if key in seen:
             continue
         seen.add(key)
         rows += 1
-        tag = f"_pack_asn1 [{'constructed' if key[0] else 'primitive'}, {'low' if key[1] else 'high'} tag number, {'short' if key[2] else 'long'} length]"
+        rng = f"{lo_len}..{hi_len if hi_len is not None else 'inf'}"
+        tag = f"_pack_asn1 [{'constructed' if key[0] else 'primitive'}, {'low' if key[1] else 'high'} tag number, content length {rng}: {shape if isinstance(shape, str) else f'{shape[1]} length octets'}]"
         site = Site.of(f, construct=tag)
-        segs = list(p.segs)
-        okt = thresholds.get("tag") in (("lt", 31), ("ge", 31)) and thresholds.get("len") in (("lt", 128), ("ge", 128))
-        chk.ob("O2", site, okt, "identifier form switches at tag number 31, length form at 128" if okt else f"form thresholds are tag {thresholds.get('tag')} / length {thresholds.get('len')}; X.690 8.1.2.4 / 8.1.3.5 say 31 and 128 (the reader switches on exactly those)")
+        okt = tag_thr in (("lt", 31), ("ge", 31))
+        chk.ob("O2", site, okt, "identifier form switches at tag number 31" if okt else f"identifier form threshold is {tag_thr}; X.690 8.1.2.4 says 31 (the reader switches on exactly that)")
         # identifier octet
         want = {cls_term} | ({"32"} if key[0] else set()) | ({repr(num)} if key[1] else {"31"})
         got = _or_set(segs[0].value) if segs and segs[0].kind == "int" and segs[0].width == 1 else None
         chk.ob("O2", site, got == want, "identifier octet = class << 6 | constructed << 5 | " + ("number" if key[1] else "0x1F") if got == want else f"identifier octet is composed of {sorted(got) if got is not None else '?'}, expected {sorted(want)}")
-        i = 1
         if not key[1]:
             okh = len(segs) > 1 and segs[1].kind == "raw" and segs[1].a.get("call") is not None and segs[1].call.rec.name.endswith("_pack_asn1_octet_number") and (segs[1].call.rec.arg(0) == num or getattr(segs[1].call.rec.arg(0), "path", None) == p2)
             chk.ob("O2", site, bool(okh), "followed by the base-128 octets of the tag number" if okh else "the high tag number is not followed by _pack_asn1_octet_number(tag_number)")
-            i = 2
-        # length octets
-        if key[2]:
-            okl = len(segs) > i and segs[i].kind == "int" and segs[i].width == 1 and segs[i].value == dlen
-            chk.ob("O2", site, okl, "short form: one octet = len(content)" if okl else f"short form length octet is {segs[i].describe() if len(segs) > i else '?'}")
-            i += 1
+        # length octets: DER wants the definite form with the minimum number of octets for *every* length on the path
+        if shape == "short":
+            okl = hi_len is not None and hi_len <= 127
+            chk.ob("O2", site, okl, "short form (one octet = len(content)) exactly for lengths up to 127" if okl else f"the short form is used for lengths {rng}: X.690 8.1.3.4 allows it up to 127 only (the reader reads bit 8 as the long-form flag)")
+        elif shape == "minimal":
+            okl = lo_len >= 128 and okm
+            chk.ob("O2", site, okl, "long form: 0x80 | number of length octets, then the minimal big-endian octets, for lengths from 128" if okl else f"the long form is used for lengths {rng} (DER: lengths below 128 take the short form)" if lo_len < 128 else whym)
+        elif isinstance(shape, tuple):
+            kw = shape[1]
+            okl = lo_len >= max(128, 256 ** (kw - 1)) and hi_len is not None and hi_len < 256**kw
+            chk.ob("O2", site, okl, f"long form with {kw} length octet(s) for lengths {rng}: minimal" if okl else f"long form with a fixed {kw} length octet(s) is used for lengths {rng}: for {'lengths below ' + str(max(128, 256 ** (kw - 1))) if lo_len < max(128, 256 ** (kw - 1)) else 'lengths from ' + str(256**kw)} that is not the minimum number of octets (BER, not DER) or does not fit")
         else:
-            okp = False
-            why = "long form: no 0x80 | count prefix followed by the length octets"
-            if len(segs) > i + 1 and segs[i].kind == "int" and segs[i].width == 1:
-                body = segs[i + 1]
-                count = body.width
-                pre = _or_set(segs[i].value)
-                okp = pre == {repr(count), "128"} and body.kind in ("reversed", "int", "repeat", "raw")
-                why = "long form: 0x80 | number of length octets, then those octets" if okp else f"long form prefix is {sorted(pre) if pre is not None else '?'} for {body.kind} of width {count!r}"
-            chk.ob("O2", site, okp, why)
-            i += 2
-        okd = len(segs) == i + 1 and segs[i].kind == "raw" and segs[i].ref.path == p3
+            chk.ob("O2", site, False, f"length octets {[sg.describe() for sg in lenc]} are neither the short form nor 0x80|n followed by n length octets")
+        okd = bool(segs) and segs[-1].kind == "raw" and segs[-1].ref.path == p3
         chk.ob("O2", site, okd, "then the content octets" if okd else f"the TLV does not end with exactly the content octets ({[sg.kind for sg in segs[i:]]})")
+    # together the rows must cover every length: 0..127 short, 128.. long
     chk.count("pack rows", rows)
     chk.require_min("pack rows", 8)
     guard = [n for n in body_nodes(f.node) if isinstance(n, ast.If) and any(isinstance(x, ast.Raise) for x in n.body) and p0 in unparse(n.test)]
